@@ -18,7 +18,18 @@ theorem commitRoot_refines (ps sth rth fu : Nat) (orig cur : Bk) (order : List N
       absTop fu orig cur' = absTop fu orig cur ∧
       fu ≤ fu' ∧ origShapeOk fu' (full orig fu [] cur') = true ∧
       absTop fu' (full orig fu [] cur') (full orig fu [] cur') = absTop fu orig cur := by
-  sorry
+  have e1 : ∀ (f : Nat) (b : Bk), fuelOk fu f b = BktCommitL.fuelOk' fu f b := by
+    intro f
+    induction f with
+    | zero => intro b; rfl
+    | succ f ih => intro b; cases b; simp only [fuelOk, BktCommitL.fuelOk', ih]
+  have e2 : ∀ (f : Nat) (b : Bk), allMatPgids fu f b = BktCommitL.allMat fu f b := by
+    intro f
+    induction f with
+    | zero => intro b; rfl
+    | succ f ih => intro b; cases b; simp only [allMatPgids, BktCommitL.allMat, ih]
+  exact BktRootL.commitRoot_ok ps sth rth fu orig cur order hw (by rw [← e1]; exact hf)
+    (by rw [← e2]; exact hc)
 
 /-- a whole transaction on the root bucket -/
 theorem root_transaction_refines (ps sth rth fu : Nat) (orig : Bk) (calls : List Call) (order : List Nat)
@@ -30,6 +41,14 @@ theorem root_transaction_refines (ps sth rth fu : Nat) (orig : Bk) (calls : List
       fu ≤ fu' ∧ origShapeOk fu' (full orig fu [] cur') = true ∧
       absTop fu' (full orig fu [] cur') (full orig fu [] cur') =
         calls.foldl specCall (absTop fu orig orig) := by
-  sorry
+  obtain ⟨hwf, habs⟩ := BktRootL.foldl_refines (stepCall fu orig) specCall (absTop fu orig)
+    (WF fu orig) (fun cur c => (bkAt c.path cur).isSome ∧ c.path.length + 3 ≤ fu) (CallsOk fu orig)
+    (fun _ _ _ hok => ⟨⟨hok.1, hok.2.1⟩, hok.2.2⟩)
+    (fun cur c hw hp => call_refines fu orig cur c hw hp.1 hp.2)
+    calls (closeAll orig) (start_wf fu orig ho) hc
+  obtain ⟨cur', fu', hcm, _, hle, hshape, hfull⟩ :=
+    commitRoot_refines ps sth rth fu orig _ order hwf hf hcov
+  refine ⟨cur', fu', hcm, hle, hshape, ?_⟩
+  rw [hfull, habs, start_abs fu orig ho]
 
 end Bolt.C04Bkt
